@@ -85,9 +85,10 @@ class Verifier(Engine):
                 return [Outcome("normal", st)]
             # mutating method call on an lvalue path
             if isinstance(s.value.func, ast.Attribute):
+                self._mut_outs = []
                 r = self.mutating_call(s.value, st)
                 if r is not None:
-                    return self.flush_raises(st) + [Outcome("normal", st)]
+                    return self._mut_outs + self.flush_raises(st) + [Outcome("normal", st)]
         if isinstance(s.value, (ast.Yield,)):
             return self.s_yield(s.value, st)
         self.expr(s.value, st)
@@ -95,9 +96,10 @@ class Verifier(Engine):
 
     def s_yield(self, y: ast.Yield, st: State) -> list[Outcome]:
         v = self.expr(y.value, st)  # type: ignore[arg-type]
+        outs = self.flush_raises(st)    # an exception while computing the value leaves nothing yielded
         acc = st.env["$yielded"]
         st.env["$yielded"] = self.seq_app(acc, self.seq_unit(acc.ty, v))  # type: ignore[arg-type]
-        return self.flush_raises(st) + [Outcome("normal", st)]
+        return outs + [Outcome("normal", st)]
 
     def s_Pass(self, s: ast.Pass, st: State) -> list[Outcome]:
         return [Outcome("normal", st)]
@@ -259,6 +261,7 @@ class Verifier(Engine):
             new = self.map_update(obj, self.coerce(args[0], ty), st)
         else:
             return None
+        self._mut_outs = self.flush_raises(st)   # an exception while evaluating the receiver / arguments happens before the mutation
         self.assign_path(f.value, new, st)
         return True
 
